@@ -49,6 +49,26 @@ CHECKS = {
    text="Generated-input search. Trees mix eligible files with inert ones of every name class (*.t.sol in any case, .SOL, .sol in the middle, no extension) and content class (unparseable, invalid UTF-8, empty, valid program with findings) at every depth; analyze_dir(tree) must equal analyze_dir(tree without inert files) and the union over eligible files, and must not fail; binary runs must exit 0. Exploration.",
    note="Trusted: eligibility predicate from the property statement; names the statement does not decide are not generated (counted).",
    design="DESIGN.md section 5 C16"),
+ "C05": dict(
+   technique="property-based testing: differential against independent reference detectors (must-report / may-report line sets) over generated programs and layouts",
+   text="Generated-input search. Programs from the slot matrix (one token per line, so a line identifies a token) and tape-decoded random programs with planted canonical forms and near misses are analysed in three layouts; for each detector of the group the reported lines must contain the line of every canonical instance found by an independent reference detector and may contain only lines of canonical or explicitly undecided instances (DESIGN section 8 fixes the forms). proptest shrinks failures on the byte tape. Exploration: decided only on canonical and clearly non-matching forms.",
+   note="Trusted: the reference detectors in harness/src/refmodel/detect.rs (written from the property text and DESIGN section 8), the reference traversal, solang-parser.",
+   design="DESIGN.md section 5 C05, section 8.1"),
+ "C06": dict(
+   technique="property-based testing: differential against independent reference detectors over generated multi-contract files (declaration-focused generator), two build profiles",
+   text="Generated-input search. Programs from the slot matrix (one token per line, so a line identifies a token) and tape-decoded random programs with planted canonical forms and near misses are analysed in three layouts; for each detector of the group the reported lines must contain the line of every canonical instance found by an independent reference detector and may contain only lines of canonical or explicitly undecided instances (DESIGN section 8 fixes the forms). proptest shrinks failures on the byte tape. Exploration: decided only on canonical and clearly non-matching forms.",
+   note="Trusted: the reference detectors in harness/src/refmodel/detect.rs (written from the property text and DESIGN section 8), the reference traversal, solang-parser.",
+   design="DESIGN.md section 5 C06, section 8.2"),
+ "C07": dict(
+   technique="property-based testing: differential against independent reference detectors (chain walk, caret test, msg.sender usage classification) over generated programs",
+   text="Generated-input search. Programs from the slot matrix (one token per line, so a line identifies a token) and tape-decoded random programs with planted canonical forms and near misses are analysed in three layouts; for each detector of the group the reported lines must contain the line of every canonical instance found by an independent reference detector and may contain only lines of canonical or explicitly undecided instances (DESIGN section 8 fixes the forms). proptest shrinks failures on the byte tape. Exploration: decided only on canonical and clearly non-matching forms.",
+   note="Trusted: the reference detectors in harness/src/refmodel/detect.rs (written from the property text and DESIGN section 8), the reference traversal, solang-parser.",
+   design="DESIGN.md section 5 C07, section 8.3"),
+ "C08": dict(
+   technique="property-based testing: differential against independent reference detectors (write-target analysis) over generated programs (mutability-focused generator)",
+   text="Generated-input search. Programs from the slot matrix (one token per line, so a line identifies a token) and tape-decoded random programs with planted canonical forms and near misses are analysed in three layouts; for each detector of the group the reported lines must contain the line of every canonical instance found by an independent reference detector and may contain only lines of canonical or explicitly undecided instances (DESIGN section 8 fixes the forms). proptest shrinks failures on the byte tape. Exploration: decided only on canonical and clearly non-matching forms.",
+   note="Trusted: the reference detectors in harness/src/refmodel/detect.rs (written from the property text and DESIGN section 8), the reference traversal, solang-parser.",
+   design="DESIGN.md section 5 C08, section 8.4"),
 }
 
 NOT_YET = {
